@@ -33,7 +33,7 @@ Inductive spc :=
 | SGotID       (* next: streamMgr.CreateStream(connID, ...) *)
 | SStreamed    (* next: Lock; [Current: re-check;] connMap[connID] = conn; Unlock *)
 | SUndo        (* Current only: refused under the write lock; next: streamMgr.RemoveStream(connID) *)
-| SAdmitted    (* registered in connMap; next (if the caller closes): CloseConnection *)
+| SAccepted    (* registered in connMap; next (if the caller closes): CloseConnection *)
 | SClosed
 | SRefused.
 
@@ -48,13 +48,13 @@ Definition sstep (v : variant) (max : nat) (lo : sloc) (sh : ssh) : sloc * ssh :
   | SGotID => (goto SStreamed, {| conns := conns sh; streams := S (streams sh) |})
   | SStreamed =>
       match v with
-      | Pinned => (goto SAdmitted, {| conns := S (conns sh); streams := streams sh |})
+      | Pinned => (goto SAccepted, {| conns := S (conns sh); streams := streams sh |})
       | Current =>
           if at_cap max (conns sh) then (goto SUndo, sh)
-          else (goto SAdmitted, {| conns := S (conns sh); streams := streams sh |})
+          else (goto SAccepted, {| conns := S (conns sh); streams := streams sh |})
       end
   | SUndo => (goto SRefused, {| conns := conns sh; streams := pred (streams sh) |})
-  | SAdmitted =>
+  | SAccepted =>
       (* CloseConnection: Lock; delete(connMap, id); Unlock — the StreamManager entry is NOT removed *)
       if s_closes lo then (goto SClosed, {| conns := pred (conns sh); streams := streams sh |}) else (lo, sh)
   | SClosed | SRefused => (lo, sh)
@@ -63,11 +63,11 @@ Definition sstep (v : variant) (max : nat) (lo : sloc) (sh : ssh) : sloc * ssh :
 Definition s_is (p : spc) (lo : sloc) : bool :=
   match s_pc lo, p with
   | SStart, SStart | SChecked, SChecked | SGotID, SGotID | SStreamed, SStreamed | SUndo, SUndo
-  | SAdmitted, SAdmitted | SClosed, SClosed | SRefused, SRefused => true
+  | SAccepted, SAccepted | SClosed, SClosed | SRefused, SRefused => true
   | _, _ => false
   end.
 Definition s_holds_stream (lo : sloc) : bool :=
-  match s_pc lo with SStreamed | SUndo | SAdmitted | SClosed => true | _ => false end.
+  match s_pc lo with SStreamed | SUndo | SAccepted | SClosed => true | _ => false end.
 
 Definition srun v max (sh : ssh) (ts : list sloc) (sched : list nat) : ssh * list sloc :=
   run _ _ (sstep v max) (sh, ts) sched.
@@ -320,7 +320,7 @@ Fixpoint count_reads (p : fpolicy) (recs : list bool) (rfaults : list bool) : op
 Definition active (recs : list bool) : nat := countb (fun b => b) recs.
 
 (* one whole admission, run alone: count (index read, by-id reads), compare, create *)
-Definition admit_once (p : fpolicy) (max : nat) (recs : list bool) (idxfault : bool) (rfaults : list bool) : ares * list bool :=
+Definition accept_once (p : fpolicy) (max : nat) (recs : list bool) (idxfault : bool) (rfaults : list bool) : ares * list bool :=
   let counted := if idxfault then match p with Open => Some 0 | _ => None end else count_reads p recs rfaults in
   match counted with
   | None => (AFailed, recs)
@@ -333,7 +333,7 @@ Definition admit_once (p : fpolicy) (max : nat) (recs : list bool) (idxfault : b
       shared: the client's active count and the marker; l_fault: some read of this caller's count fails. *)
 Inductive lpc :=
 | LNew        (* validation and reads before the admission (activation: GetByCode) *)
-| LStart      (* next: SetNX(admit:<scope>:<client>) *)
+| LStart      (* next: SetNX(accept:<scope>:<client>) *)
 | LHeld       (* marker held; next: count the active entries (reads) and compare *)
 | LCounted    (* below the limit; next: create (writes) *)
 | LDoneHeld   (* created; next: Delete(marker) *)
